@@ -36,7 +36,7 @@ U_SAME = ("class Helper:\n    def meth(self, q: str) -> str:\n        ...\n\n\nc
 
 def m_source(base: str, order: int) -> str:
     decls = list(M_DECLS)
-    head = ["from __future__ import annotations", "from decimal import Decimal", "from enum import Enum", "from typing import Generic, TypeVar", "", 'T = TypeVar("T")']
+    head = ["from __future__ import annotations", "import argparse", "from decimal import Decimal", "from enum import Enum", "from typing import Generic, TypeVar", "", 'T = TypeVar("T")']
     decls.append("def money(d: Decimal) -> Decimal:\n    ...\n")      # a class of another library; an unrelated module may define a class of that name
     if base == "references-sibling":
         head.append(f"from {PKG}.sibmod import Sibling")
@@ -52,6 +52,8 @@ def m_source(base: str, order: int) -> str:
         # functions among themselves, classes among themselves (a subclass stays after its base class)
         extra = decls[NFIX:]
         decls = [decls[1], decls[0], decls[8]] + extra + [decls[7], decls[6], decls[4], decls[5], decls[2], decls[3]]
+    # an internal class of another library as superclass; an unrelated module "xargparse" may define a class of that name
+    decls.append("class UsesForeignInternal(argparse._ActionsContainer):\n    def own_member(self) -> int:\n        ...\n")
     # an alias of M's own class, used as superclass and as type; an unrelated module may bind the same alias name to a class of its own
     decls.append("HandleAlias = Helper\n\n\nclass UsesAlias(HandleAlias):\n    def via(self, h: HandleAlias) -> HandleAlias:\n        ...\n")
     return "\n".join(head) + "\n\n\n" + "\n\n".join(decls)
@@ -78,6 +80,7 @@ def package(base: str, u: int, u2: int, order: int, ri: int = 0):
         files["amod.py"] = content[u].replace("OtherReport", "OtherReportA") if u == 4 else TRAIL.format(body=content[u].replace("Unrelated", "UnrelatedA").replace("unrelated_fun", "unrelated_fun_a"), name="ARec")
     if u == 3:      # ... in a module whose path ends like the other library's ("decimal")
         files["bigdecimal.py"] = "class Decimal:\n    pass\n"
+        files["xargparse.py"] = "class _ActionsContainer:\n    def injected(self) -> int:\n        ...\n"
     if u2:
         files["renamed_umod.py"] = content[u2]
     if ri:      # the root __init__ re-exports the unrelated module's class that is named like the one M uses
